@@ -186,35 +186,34 @@ func lcp(keys []string) []byte {
 	return p
 }
 
-// value draws a value for a tree of the given root type. While finding SigCross is excluded, IO values always
-// start with 0x10 and state values never do, so the two root types never hold an identical leaf.
-func value(t *rapid.T, typ node.RootType) []byte {
-	v := kv.GenValue(t)
-	if !ev.Excluded(SigCross) {
-		return v
-	}
-	if typ == node.RootTypeIO {
-		return append([]byte{0x10}, v...)
-	}
-	if len(v) > 0 && v[0] == 0x10 {
-		v = append([]byte{0x11}, v[1:]...)
-	}
-	return v
+// value draws a value for a tree of the given root type.
+func value(t *rapid.T, _ node.RootType) []byte {
+	return kv.GenValue(t)
 }
 
-// crossLeaf reports whether some IO candidate of the history holds a key/value pair that some state candidate
-// holds too (precondition of finding SigCross).
-func (m *machine) crossLeaf() bool {
-	for _, a := range m.versions {
-		for _, io := range a.ofType(node.RootTypeIO) {
-			for _, b := range m.versions {
-				for _, st := range b.ofType(node.RootTypeState) {
-					for k, v := range io.Model {
-						if w, ok := st.Model[k]; ok && bytes.Equal(v, w) {
-							return true
-						}
-					}
-				}
+// sharesPair reports whether two candidates hold an identical key/value pair (i.e. an identical leaf node).
+func sharesPair(a, b *cand) bool {
+	for k, v := range a.Model {
+		if w, ok := b.Model[k]; ok && bytes.Equal(v, w) {
+			return true
+		}
+	}
+	return false
+}
+
+// crossPair reports the precondition of finding SigCross on badger: a finalized IO root holds a leaf that a finalized
+// state root of the SAME version holds too (put in this version by both, or inherited by the state root). Prune of that
+// version walks the IO root, which has no successors, and tombstones the leaf at the version's timestamp; the state
+// roots of later versions that inherit the leaf lose it. (A leaf the state tree inserts in a LATER version is written at
+// a later timestamp and is not affected.)
+func crossPair(fin []*cand) bool {
+	for _, io := range fin {
+		if io.Root.Type != node.RootTypeIO {
+			continue
+		}
+		for _, st := range fin {
+			if st.Root.Type == node.RootTypeState && sharesPair(io, st) {
+				return true
 			}
 		}
 	}
@@ -257,7 +256,7 @@ func (m *machine) genBatch(t *rapid.T, typ node.RootType, pm kv.Model, sibs []*c
 		if s == 0 && len(sibs) > 0 && len(ops) == 0 && rapid.IntRange(0, 2).Draw(t, "fromSibling") == 0 {
 			mode = 4 + rapid.IntRange(0, 1).Draw(t, "sibSame")
 		}
-		if typ == node.RootTypeIO && mode == 15 && m.lastState != nil && len(m.lastState.Model) > 0 && !ev.Excluded(SigCross) {
+		if typ == node.RootTypeIO && mode == 15 && m.lastState != nil && len(m.lastState.Model) > 0 {
 			// IO batch copies a key/value pair of the state tree (identical leaf in two root types)
 			ks := m.lastState.Model.SortedKeys()
 			k := ks[rapid.IntRange(0, len(ks)-1).Draw(t, "crossKey")]
@@ -558,7 +557,6 @@ func (m *machine) commit(t *rapid.T, typ node.RootType) {
 	}
 	if cross {
 		c.Cross = true
-		m.crossPre = true
 	}
 	if wantHash.IsEmpty() {
 		m.rec.Label("batch:empty-root")
@@ -654,8 +652,8 @@ func (m *machine) finalize(t *rapid.T) {
 		if r.backend != "badger" {
 			continue
 		}
-		same, cross := sharedDanger(vr, fin, ri)
-		if (same && ev.Excluded(SigShared)) || (cross && ev.Excluded(SigCross)) {
+		same, _ := sharedDanger(vr, fin, ri)
+		if same && ev.Excluded(SigShared) {
 			// look for a choice without the precondition, starting from the drawn one
 			found := false
 		search:
@@ -663,7 +661,7 @@ func (m *machine) finalize(t *rapid.T) {
 				for di := 0; di <= len(ios); di++ {
 					s2 := (si + ds) % len(states)
 					i2 := (ii+1+di)%(len(ios)+1) - 1
-					if s3, c3 := sharedDanger(vr, pick(s2, i2), ri); !(s3 && ev.Excluded(SigShared)) && !(c3 && ev.Excluded(SigCross)) {
+					if s3, _ := sharedDanger(vr, pick(s2, i2), ri); !s3 {
 						fin, found = pick(s2, i2), true
 						break search
 					}
@@ -675,10 +673,8 @@ func (m *machine) finalize(t *rapid.T) {
 				return
 			}
 		}
-		if same, cross = sharedDanger(vr, fin, ri); same {
-			m.sharedPre = true
-		} else if cross {
-			m.crossPre = true
+		if same, cross := sharedDanger(vr, fin, ri); same || cross {
+			m.sharedPre = true // (cross: a discarded candidate of the other root type put the node)
 		}
 	}
 	// Two sibling state roots finalized in one version. Real callers never do this and pathbadger must reject it
@@ -728,6 +724,21 @@ func (m *machine) finalize(t *rapid.T) {
 					fin, two = fin2, true
 				}
 			}
+		}
+	}
+	if m.has("badger") && crossPair(fin) {
+		if ev.Excluded(SigCross) {
+			// finalize without the IO root (its candidates are discarded)
+			m.rec.Discard("excluded:" + SigCross)
+			var keep []*cand
+			for _, f := range fin {
+				if f.Root.Type != node.RootTypeIO {
+					keep = append(keep, f)
+				}
+			}
+			fin = keep
+		} else {
+			m.crossPre = true
 		}
 	}
 	roots := make([]node.Root, 0, 3)
@@ -927,11 +938,11 @@ func (m *machine) proofKeys() [][]byte {
 
 func (m *machine) sigUnreadable(r *replica, rr readResult) string {
 	if r.backend == "badger" && rr.Diff == "" {
+		if m.crossPre {
+			return SigCross
+		}
 		if m.sharedPre {
 			return SigShared
-		}
-		if m.crossPre || m.crossLeaf() {
-			return SigCross
 		}
 	}
 	return "finalized-root-unreadable"
@@ -1204,7 +1215,7 @@ func TestC06Versions(t *testing.T) {
 	rec := ev.New("C06", "TestC06Versions", ruleVersions,
 		"caller rules taken from abci/state.go, worker/storage and the mkvs db tests: versions finalized in order; at most one finalized root per type and version; IO roots built from the empty root of their version; candidates only for the version after the last finalized one",
 		"an operation that returns an error is a history the backend does not accept; it must not damage anything but is not itself a violation",
-		"findings listed as known are excluded by construction: "+SigForeign+" (no two distinct sibling candidates that may both create non-root nodes on pathbadger), "+SigShared+" / "+SigCross+" (finalize choices where a discarded candidate put a node the finalized root contains but did not put, badger), "+SigListed+" (listing clause skipped on pathbadger)")
+		"findings listed as known are excluded by construction: "+SigForeign+" (no two distinct sibling candidates that may both create non-root nodes on pathbadger), "+SigShared+" (finalize choices where a discarded candidate put a node the finalized root contains but did not put, badger), "+SigCross+" (no IO root finalized together with a state root that holds an identical key/value pair, badger), "+SigListed+" (listing clause skipped on pathbadger)")
 	defer rec.Flush()
 	var cur *machine
 	ev.Trace = func() any {
